@@ -482,11 +482,10 @@ Again(f, p) == <<p, p>> \o FamCall(f)
 
 SeqSc(cfg, items) == [mode |-> "seq", cfg |-> cfg, items |-> items]
 SingleLabels == Labels \ {x.lab : x \in AckStanzas}
-SingleItems == {a \in Alphabet : a.lab \in SingleLabels}
 Singles == {SeqSc(c, <<l>>) : l \in SingleLabels, c \in StateCfgs}
 NoListen == {SeqSc("nolisten", <<l>>) : l \in {Exp("ibb.open"), Exp("ibb.data"), Exp("ibb.close"), Exp("ibb.msgdata")}}
 (* every item twice in a row (unmatched both times in the empty table) + the helper call *)
-Repeats == {SeqSc(c, Again(a.fam, a.lab)) : a \in SingleItems, c \in StateCfgs}
+Repeats == UNION {{SeqSc(c, Again(f, l)) : l \in Probes(f) \cap SingleLabels, c \in StateCfgs} : f \in Families}
 Stateful3 == UNION {{SeqSc(c, x[1] \o <<p>>) : x \in NonEmptySetups(f), p \in Probes(f), c \in StateCfgs} :
                     f \in Stateful}
 (* the same in every table state; the quick tier keeps the families whose handler and     *)
@@ -506,11 +505,17 @@ C09_LabelsUnique == Cardinality(Labels) = Cardinality(Alphabet)
 AppNames == {"app:hist_fetch", "app:rcpt_send", "app:rcpt_elem", "app:muc_join", "app:muc_leave", "app:ibb_write",
              "app:ibb_lclose", "app:ibb_open"}
 MaxItems == 7      \* the longest scenario (thorough tier: setup of 4 steps, a probe twice, a helper call)
-UsedItems == UNION {{sc.items[i] : i \in 1..Len(sc.items)} : sc \in SeqScenarios}
+(* every item of every sequence is a known stanza or application action: the sequences are    *)
+(* built from single labels and probes (labels by definition), setups, helper calls, and the  *)
+(* few hand-picked labels of NoListen / Pairs                                                 *)
 C09_ItemsKnown ==
-  /\ UsedItems \subseteq (Labels \cup AppNames)
-  /\ {sc.cfg : sc \in SeqScenarios} \subseteq Cfgs
-  /\ \A sc \in SeqScenarios : Len(sc.items) <= MaxItems
+  LET L == Labels \cup AppNames IN
+  /\ \A f \in Stateful : \A x \in SetupsOK(f, Depth(f)) :
+        /\ Len(x[1]) + Len(Again(f, "p")) <= MaxItems
+        /\ \A i \in 1..Len(x[1]) : x[1][i] \in L
+  /\ \A f \in Families : \A i \in 1..Len(FamCall(f)) : FamCall(f)[i] \in AppNames
+  /\ \A sc \in NoListen \cup Pairs : \A i \in 1..Len(sc.items) : sc.items[i] \in Labels
+  /\ StateCfgs \subseteq Cfgs
 (* every (registered target, shape) pair occurs in a sequence, in every table state of its    *)
 (* handler and in every configuration: the stateful part has exactly one scenario per         *)
 (* (configuration, non-empty setup, probe) triple                                             *)
@@ -525,8 +530,7 @@ C09_EveryTargetCovered ==
 (* in a row followed by the helper call of its handler, in every configuration                *)
 C09_EveryConfigCrossed ==
   LET N == Cardinality(SingleLabels) * Cardinality(StateCfgs)
-  IN /\ Cardinality(SingleItems) = Cardinality(SingleLabels)
-     /\ Cardinality(Singles) = N
+  IN /\ Cardinality(Singles) = N
      /\ Cardinality(Repeats) = N
      /\ \A sc \in Repeats : Len(sc.items) >= 2 /\ sc.items[1] = sc.items[2]
      /\ \A f \in Stateful : FamCall(f) # <<>>
